@@ -156,7 +156,7 @@ Theorem C12_session_auth_sound : forall C ccd rcp capacity ops sid o w,
     (ccd = true -> authenticates o sid -> u_disabled usr = false).
 Proof.
   intros C ccd rcp capacity ops sid o w st P H.
-  destruct (session_auth_sound C ccd rcp st sid o w P H) as [s [usr [Es [Hl [Hu [Eu [Euu Hd]]]]]]].
+  destruct (session_auth_sound C ccd rcp st sid o w (SInv_reach C ccd rcp capacity ops) P H) as [s [usr [Es [Hl [Hu [Eu [Euu Hd]]]]]]].
   exists s, usr. repeat split; auto.
   subst w. exact (session_provenance C ccd rcp capacity ops sid s Es).
 Qed.
@@ -172,7 +172,7 @@ Proof.
   intros C OK capacity ops o w st [[u [q PL]]|[sid A]] H.
   - destruct (password_auth_sound C OK _ _ _ _ _ _ _ (Inv_reach C _ _ capacity ops) PL H) as [-> [usr [Eu [Ed _]]]]. eauto.
   - assert (P : presents o sid) by (destruct A as [->| ->]; unfold presents; auto).
-    destruct (session_auth_sound C _ _ _ _ _ _ P H) as [s [usr [_ [_ [_ [Eu [_ Hd]]]]]]].
+    destruct (session_auth_sound0 C _ _ _ _ _ _ P H) as [s [usr [_ [_ [_ [Eu [_ Hd]]]]]]].
     exists usr. split; [exact Eu | exact (Hd eq_refl A)].
 Qed.
 Print Assumptions C12_disabled_user_never_authenticates.
@@ -237,9 +237,27 @@ Theorem C12_expired_session_dead : forall C ccd rcp capacity ops0 sid s dt,
 Proof.
   intros C ccd rcp capacity ops0 sid s dt st Es Hle.
   apply killed_forever; [apply Inv_step, Inv_reach |].
-  apply (expiry_kills C ccd rcp st sid s dt); assumption.
+  apply (expiry_kills C ccd rcp st sid s dt); [apply SInv_reach | assumption | assumption].
 Qed.
 Print Assumptions C12_expired_session_dead.
+
+(* why (4) holds although AuthenticateCookie never compares LoginSession.Expiration with the clock: in every
+   reachable state every stored session document -- written by CreateSession or by the refresh of AuthenticateCookie
+   (more than 10% of the TTL elapsed) -- carries a bucket expiry, equal to its Expiration; so once the clock has
+   reached the Expiration the store no longer returns the document, whatever the clock reads.  (A session document
+   written WITHOUT an expiry would be returned for ever: C12_Refuted.session_without_bucket_expiry_never_expires.) *)
+Theorem C12_session_documents_carry_expiry : forall C ccd rcp capacity ops sid s,
+  let st := reach C ccd rcp capacity ops in
+  alookup sid (sessions st) = Some s ->
+  s_docexp s = s_expires s /\ s_docexp s <> 0 /\
+  forall t, s_expires s <= t -> get_session C (with_now st t) sid = None.
+Proof.
+  intros C ccd rcp capacity ops sid s st Es.
+  destruct (SInv_reach C ccd rcp capacity ops sid s Es) as [E1 [E2 _]].
+  split; [exact E1|]. split; [exact E2|].
+  intros t Ht. apply (stored_session_expires C st sid s t); [apply SInv_reach | exact Es | exact Ht].
+Qed.
+Print Assumptions C12_session_documents_carry_expiry.
 
 (* (5) a one-time session that has authenticated once never authenticates again (sequentially) *)
 Theorem C12_one_time_at_most_once : forall C ccd rcp capacity ops0 sid s o w,
@@ -313,7 +331,7 @@ Theorem C12_rest_served_user_sound : forall C, crypto_ok C -> forall ccd rcp cap
         s_uuid s = u_uuid usr /\ (ccd = true -> u_disabled usr = false))).
 Proof.
   intros C OK ccd rcp capacity rops public cr w rs H.
-  destruct (rest_served_user_sound C OK ccd rcp rs public cr w (rInv_reach C ccd rcp capacity rops) H)
+  destruct (rest_served_user_sound C OK ccd rcp rs public cr w (rInv_reach C ccd rcp capacity rops) (rSInv_reach C ccd rcp capacity rops) H)
     as [usr [Eu [[u [p [Eb [Hu [-> [Ed [Hv Hk]]]]]]]|R]]].
   - exists usr. split; [exact Eu|]. left. exists u, p. repeat split; auto.
     intros Pq Pp. apply (bkey_plain C OK); auto.
